@@ -11,7 +11,8 @@ What is enumerated (every element of the product, no sampling):
   n <= 5 [thorough: n <= 8]; for larger n the empty set, every single node and every pair of nodes at most two
   apart; for rank > 1 a missing node
   is missing for all passive indices) x mode (linear, nearest) x data pattern (every unit impulse,
-  a linear ramp, a generic sign-changing sequence, a variable without the coordinate)
+  a linear ramp, a generic sign-changing sequence, a variable without the coordinate; and, without missing nodes,
+  the generic sequence with +-inf at each single node)
   x target (every node, mid point, quarter point, 31/64 and 33/64 of every bin, one ulp either
   side of every node, one ulp inside / outside both ends, far outside), as one array and one by one as scalars.
 * the same on datetime64 axes (coordinate "time" with the library's time conversion of the
@@ -44,7 +45,7 @@ LEVEL = "exploration"
 RULE = (
     "full product grid x layout (rank 1..4, interpolated axis in every position) x missing-node subset "
     "(all subsets for n<=5 [thorough n<=8]; above: none, every single node, every pair at most two nodes apart) x mode {linear, nearest} x data pattern "
-    "{every unit impulse, ramp, generic, pass-through} x target {every node, mid, quarter, 31/64 and 33/64 of every bin, +-1ulp at "
+    "{every unit impulse, ramp, generic, pass-through; +-inf at each single node (no missing nodes)} x target {every node, mid, quarter, 31/64 and 33/64 of every bin, +-1ulp at "
     "every node, 1ulp inside/outside both ends, far outside}, array and scalar targets, float and datetime64 axes; "
     "two-coordinate grid interpolation in both orders; 1D/2D spectra x 3 layouts x {time, frequency, time+frequency} "
     "x extrapolation value {default, 0, -1}. One evaluation = one (call, variable, target) triple compared with the "
@@ -62,11 +63,17 @@ ASSUMPTIONS = [
     "time targets for the coordinate named 'time' are whole seconds (the library's time conversion truncates; C17)",
     "spectra are NaN-free on input; moments are compared only where the interpolated energy is non-zero",
     "multi-coordinate interpolation with NaN input is outside the oracle (order dependent, not fixed by the text)",
+    "infinite node values: at a node the data value itself is demanded (finite next to an infinite node, the infinity "
+    "at it), strictly between a finite and an infinite node that infinity, nearest = value of the nearer node; a "
+    "target within 1e-12 of the bin from the finite neighbour may also return that neighbour's value (the weight of "
+    "the infinite node may round to zero); +inf next to -inf and inf together with missing nodes are not enumerated "
+    "(inf - inf is not decided by the statement); spectra: depth = inf (all / some time stamps) interpolated in time",
 ]
 REQUIRED_CATEGORIES = [
     "at_node", "interior", "outside", "ulp_inside", "ulp_outside", "nan_renormalised", "nan_missing_result",
     "half_way_exact_missing", "nearest_tie", "descending", "datetime_axis", "scalar_target", "passthrough",
     "ramp_exact", "bounded_checked", "grid2_cells", "spectrum_moment", "spectrum_extrapolated", "rank4",
+    "inf_node_cases", "inf_at_node_target", "spectrum_inf_depth",
 ]
 
 HALF = Fr(1, 2)
@@ -277,14 +284,23 @@ def eval_alt(V, alt, cond=1.0):
     if w1 > 0:
         ref = ref + w1 * V[i1]
     # weights carry an absolute error of a few eps*cond, so the tolerance scales with the node values
-    scale = np.nan_to_num(np.abs(V[i0])) + np.nan_to_num(np.abs(V[i1]))
+    scale = fabs(V[i0]) + fabs(V[i1])
     tol = np.zeros(P) if i0 == i1 else 1e-12 * cond * scale
     return ref, tol
 
 
 def matches(R, ref, tol):
+    """NaN matches NaN, +-inf matches the same infinity, finite values within tol"""
+    R = np.asarray(R, dtype=float)
+    ref = np.asarray(ref, dtype=float)
     with np.errstate(invalid="ignore"):
-        return (np.isnan(R) & np.isnan(ref)) | (~np.isnan(R) & ~np.isnan(ref) & (np.abs(R - ref) <= tol))
+        return (np.isnan(R) & np.isnan(ref)) | (R == ref) | (
+            np.isfinite(R) & np.isfinite(ref) & (np.abs(R - ref) <= tol))
+
+
+def fabs(V):
+    """|V| with non-finite entries counted as 0 (tolerance scales must stay finite)"""
+    return np.where(np.isfinite(V), np.abs(V), 0.0)
 
 
 def compare(R, V, table, pre=None, cond=None):
@@ -297,7 +313,7 @@ def compare(R, V, table, pre=None, cond=None):
         REF = np.where(NONE[:, None], np.nan, t0 + t1)
         cd = np.ones(len(table)) if cond is None else cond
         TOL = np.where((I0 == I1)[:, None], 0.0,
-                       1e-12 * cd[:, None] * (np.nan_to_num(np.abs(V[I0])) + np.nan_to_num(np.abs(V[I1]))))
+                       1e-12 * cd[:, None] * (fabs(V[I0]) + fabs(V[I1])))
         ok = np.all(matches(R, REF, TOL), axis=1)
     bad = []
     for j in np.nonzero(~ok)[0]:
@@ -398,6 +414,41 @@ def build_vars(grid, r, missing, impulses):
         if missing:
             v[sorted(missing), :] = np.nan
     return out, P
+
+
+def inf_vars(grid, r):
+    """one variable per node k: the generic data with node k infinite (+inf for even passive index, -inf for odd).
+    Small grids: every node; large grids: first, second, middle, last."""
+    n = grid.n
+    P = int(np.prod([s for _, s in PASSIVE[: r - 1]])) if r > 1 else 1
+    q = np.arange(P, dtype=float)
+    ks = range(n) if n <= 12 else sorted({0, 1, n // 2, n - 1})
+    out = {}
+    for k in ks:
+        v = gen_values(n)[:, None] * (1 + 0.5 * q)[None, :] + 3.0 * q[None, :]
+        v[k, :] = np.where(q % 2 == 0, np.inf, -np.inf)
+        out[f"inf{k}"] = v
+    return out
+
+
+def inf_table(grid, tvals, table, k):
+    """Admissible answers when node k holds an infinite value (no missing nodes).  What the statement decides:
+    at a node the data value itself (finite next to the infinite node, the infinity at it); strictly between a
+    finite and the infinite node the linear value is that infinity; nearest = the value of the nearer node.  Not
+    decided: a target so close to the finite neighbour (relative 1e-12 of the bin) that the weight of the infinite
+    node may round to exactly zero - there the neighbour's value is accepted as well."""
+    out = []
+    for t, alts in zip(tvals, table):
+        br = grid.bracket(t)
+        alts = list(alts)
+        if br is not None and br[0] != br[1] and k in (br[0], br[1]):
+            i0, i1, f = br
+            if f <= AMB and (i0, 1.0, i0, 0.0) not in alts:
+                alts.append((i0, 1.0, i0, 0.0))
+            if 1 - f <= AMB and (i1, 1.0, i1, 0.0) not in alts:
+                alts.append((i1, 1.0, i1, 0.0))
+        out.append(alts)
+    return out
 
 
 def to_layout(V, r, p):
@@ -599,6 +650,43 @@ def run_axis(unit):
                           "library": [None if np.isnan(v) else float(v) for v in
                                       from_layout(np.asarray(out["gen"].values, dtype=float), p)[j][:2]],
                           "admissible": [None if a is None else list(a) for a in table[j]]})
+    # ---- infinite node values: "identical to the data at grid nodes" next to and at an infinite node ----------
+    ivars = inf_vars(grid, r)
+    ds_inf, _ = make_dataset(grid, coord, r, p, ivars)
+    for mode in MODES:
+        key0 = {"api": "along_axis", "grid": grid.name, "layout": f"r{r}p{p}", "mode": mode, "nan": [], "data": "inf node"}
+        base = grid.table(tvals, frozenset(), mode)
+        try:
+            out = interpolate_dataset_along_axis(targets.copy(), ds_inf, coordinate_name=coord,
+                                                 nearest_neighbour=(mode == "nearest"))
+        except Exception as exc:  # noqa
+            c.violation(dict(key0, check="raises"), f"infinite node value: raised {type(exc).__name__}: {exc}",
+                        traceback=tb_tail())
+            continue
+        c.case(key0)
+        for name, V in ivars.items():
+            k = int(name[3:])
+            table = inf_table(grid, tvals, base, k)
+            R = from_layout(np.asarray(out[name].values, dtype=float), p)
+            c.evaluations += m
+            touched = [j for j, t in enumerate(tvals) if grid.bracket(t) is not None and k in grid.bracket(t)[:2]]
+            c.cat("inf_node_cases", len(touched))
+            c.cat("inf_at_node_target", sum(1 for j in touched if grid.bracket(tvals[j])[0] == grid.bracket(tvals[j])[1]))
+            c.nontriv(n=len(touched))
+            bad = compare(R, V, table, None, cond)
+            for j in bad[:3]:
+                kind, t = tk[j]
+                br = grid.bracket(t)
+                c.violation(
+                    dict(key0, check="value", var="inf node", target_kind=kind,
+                         target_at_node=bool(br is not None and br[0] == br[1])),
+                    f"{name}: node {k} is infinite; target {t!r} ({kind}) on {grid.name} {mode}: library "
+                    f"{R[j][:4].tolist()} not among admissible answers",
+                    target=t, nodes=grid.nodes, lib=[repr(float(v)) for v in R[j]],
+                    expected=[None if a is None else list(a) for a in table[j]],
+                    node_values=[repr(float(v)) for v in V[:, 0]])
+            if len(bad) > 3:
+                c.violations_total += len(bad) - 3
     return c.result()
 
 
@@ -894,9 +982,15 @@ def build_spectrum(lead, two_d, pattern, depth):
 
     sp, dims = spectrum_space(lead)
     E, moms = spectrum_data(lead, len(DIRS) if two_d else 0, pattern)
-    dep = np.broadcast_to(np.asarray(depth, dtype=float), lead).copy() if lead else float(depth)
+    dep = np.broadcast_to(np.asarray(20.0, dtype=float), lead).copy() if lead else 20.0
     if lead:
         dep = dep + np.arange(int(np.prod(lead)), dtype=float).reshape(lead) * 2.5
+        if depth == "inf_all":       # deep water everywhere (the library's default depth)
+            dep[...] = np.inf
+        elif depth == "inf_mixed":   # deep water at the first, third and fourth time stamp (second stays finite)
+            dep[[0, 2, 3]] = np.inf
+    elif depth != "finite":
+        dep = np.inf
     if two_d:
         s = create_2d_spectrum(np.array(FREQ), np.array(DIRS), E, sp["time"], sp["latitude"], sp["longitude"],
                                dims=dims + ("frequency", "direction"), depth=dep)
@@ -1023,14 +1117,14 @@ def run_spectrum(unit):
                 continue
             om = np.broadcast_to(bcast(outm, 0, ref.ndim), ref.shape)
             am = np.broadcast_to(bcast(amb, 0, ref.ndim), ref.shape)
-            ok = matches(got, ref, 4e-12 * float(np.max(np.abs(A)))) | am
+            ok = matches(got, ref, 4e-12 * float(np.max(fabs(A)))) | am
             ok |= om & np.isnan(got)
             if not np.all(ok):
                 idx = tuple(int(i) for i in np.argwhere(~ok)[0])
                 c.violation(dict(key0, check="value", var=nm), f"{nm}{list(idx)}: library {got[idx]!r}, reference {ref[idx]!r}")
 
     for pattern in patterns:
-        s, E, moms, dep = build_spectrum(lead, two_d, pattern, 20.0)
+        s, E, moms, dep = build_spectrum(lead, two_d, pattern, "finite")
         # ---------------- frequency ----------------
         ftv_all = [t for _, t in fk]
         for mode in MODES:
@@ -1121,6 +1215,31 @@ def run_spectrum(unit):
                                             traceback=tb_tail())
                                 continue
                             check_spectral(key0, res, E, moms, [(gt, ttv, 0), (gf, ftv, fax)], mode, -1.0)
+    # ---------------- deep water: depth = inf, interpolated in time onto its own time stamps and in between ----------
+    if lead:
+        ttv_all = [t for _, t in tkk]
+        own = list(TIME_S)
+        for dname in ("inf_all", "inf_mixed"):
+            s, E, moms, dep = build_spectrum(lead, two_d, "generic", dname)
+            for mode in MODES:
+                if two_d and mode == "nearest":
+                    continue
+                full = ttv_all if mode == "linear" else [t for t in ttv_all if not (gt.bracket(t) is not None
+                                                                                    and gt.bracket(t)[2] == HALF)]
+                for tname, ttv in (("own_time_stamps", own), ("one_own_time_stamp", own[1:2]), ("all_targets", full)):
+                    kw = {} if two_d else {"nearest_neighbour": (mode == "nearest")}
+                    key0 = {"api": ("spec2d." if two_d else "spec1d.") + "interpolate", "layout": layout, "along": "time",
+                            "mode": mode, "depth": dname, "targets": tname}
+                    c.case(key0)
+                    try:
+                        res = s.interpolate({"time": gt.target_array(ttv)}, **kw)
+                    except Exception as exc:  # noqa
+                        c.violation(dict(key0, check="raises"), f"interpolate(time) raised {type(exc).__name__}: {exc}",
+                                    traceback=tb_tail())
+                        continue
+                    c.cat("spectrum_inf_depth", len(ttv))
+                    check_spectral(key0, res, E, moms, [(gt, ttv, 0)], mode, 0.0)
+                    check_time_vars(key0, res, s, ttv, mode, {"latitude": None, "depth": None})
     c.nontriv(n=n_nontriv)
     c.sample({"api": "spectrum.interpolate / interpolate_frequency", "two_d": two_d, "layout": layout,
               "frequency_nodes": FREQ, "time_nodes_s": TIME_S, "frequency_targets": [t for _, t in fk][:8]})
